@@ -37,7 +37,49 @@ var (
 	steps      int
 	Aborted    string // non-empty: run was cut (step bound, deadlock)
 	finished   chan struct{}
+	Acc        []int // thread id of every logged (sync) access, in execution order
+	// Picker, when set, decides the scheduling points beyond the forced prefix:
+	// it gets the ids of the runnable threads (the current one first when
+	// canStay) and returns an index into them.
+	Picker func(canStay bool, ids []int) int
+	// Fine enables the statement-level scheduling points (Plain) of the hunt build.
+	Fine bool
 )
+
+// Cur returns the id of the running controlled thread.
+func Cur() int {
+	if cur == nil {
+		return -1
+	}
+	return cur.id
+}
+
+// Log records one sync access of the running thread.
+func Log() {
+	if active {
+		Acc = append(Acc, cur.id)
+	}
+}
+
+// Step is a scheduling point followed by a logged access: called by the
+// vatomic shims and by the harness at every operation invocation.
+func Step() {
+	if !active {
+		return
+	}
+	Yield()
+	Acc = append(Acc, cur.id)
+}
+
+// Plain is an unlogged scheduling point (statement-level instrumentation).
+func Plain() {
+	if active && Fine {
+		Yield()
+	}
+}
+
+// Abort cuts the current run from inside a controlled thread.
+func Abort(why string) { abort(why) }
 
 // Active reports whether a controlled run is in progress.
 func Active() bool { return active }
@@ -74,6 +116,15 @@ func pick(me *thread) *thread {
 		k = prefix[len(Trace)]
 		if k >= n {
 			k = n - 1
+		}
+	} else if Picker != nil && n > 1 {
+		ids := make([]int, n)
+		for i := 0; i < n; i++ {
+			ids[i] = opts[i].id
+		}
+		k = Picker(canStay, ids)
+		if k < 0 || k >= n {
+			k = 0
 		}
 	}
 	Trace = append(Trace, Choice{k, n})
@@ -152,7 +203,7 @@ func Run(bodies []func(), forced []int) []Choice {
 	mu.Lock()
 	defer mu.Unlock()
 	threads = nil
-	prefix, Trace, Sched, preempts, steps, Aborted = forced, nil, nil, 0, 0, ""
+	prefix, Trace, Sched, preempts, steps, Aborted, Acc = forced, nil, nil, 0, 0, "", nil
 	finished = make(chan struct{})
 	for i := range bodies {
 		threads = append(threads, &thread{id: i, wake: make(chan struct{}, 1)})
